@@ -177,7 +177,8 @@ def _mk_fiber(npol):
             spans = ex.call_fn(ff, [ex.call_fn(ff, [x, L], kw()), L2], kw())
             one = ex.call_fn(ff, [x, L + L2], kw())
             return x, spec, y, spans, one
-        for p in K.paths(run, pre):
+        # beta2 = beta3 = 0 takes the closed-form branch (pure loss): covered by the clause `loss_only` below
+        for p in K.paths(run, pre + [z3.Or(b2 != 0, b3 != 0)]):
             sig = p.signature()
             if p.kind != 'ret':
                 K.prove(f'noraise[{sig}]', p.pc, False, replay=rep, words='FIBER(gamma=0) accepts every field, L > 0, alpha >= 0')
@@ -212,6 +213,21 @@ def _mk_fiber(npol):
                         words="energy of each polarisation = input energy * exp(-alpha' L), alpha' = alpha/4.343")
             bad = purity_violations(p, y)
             (K.fail if bad else K.ok)(f'frame[{sig}]', '; '.join(bad) if bad else 'input untouched, fresh output')
+        # dispersion-free, gamma = 0: the filter is the constant exp(-alpha' L / 2)
+        def run0(ex):
+            mk_gv(ex)
+            x = mk_osig(ex, 'x', N, npol, False)
+            return x, ex.call_fn(ff, [x, L], {'alpha': al, 'gamma': 0})
+        for p in K.paths(run0, pre):
+            sig = p.signature()
+            if p.kind != 'ret':
+                K.prove(f'loss_only.noraise[{sig}]', p.pc, False, replay=rep)
+                continue
+            x, y = p.value
+            c = uf('exp', -(al / z3.RealVal(Fraction('4.343'))) / 2 * L)
+            idx = idx_of(npol, i)
+            K.prove(f'loss_only[{sig}]', list(p.pc) + pol_hyp(npol), eq_scalar(y.f['signal'].elem(idx), s_mul(c, x.f['signal'].elem(idx))) if y.cls == 'optical_signal' and conc(y.f.get('n_pol')) == npol else False,
+                    replay=rep, words="beta2 = beta3 = gamma = 0: out = in * exp(-alpha' L / 2) (the all-pass part of the filter is the identity)")
         # FIBER(L, beta2) = DM(beta2*L)
         def run2(ex):
             mk_gv(ex)
